@@ -41,7 +41,7 @@ def clone(n):
         for f in n._fields:
             if hasattr(n, f):
                 setattr(new, f, clone(getattr(n, f)))
-        for a in ("lineno", "col_offset", "end_lineno", "end_col_offset", "_qualname", "_inline_block", "_was_return"):
+        for a in ("lineno", "col_offset", "end_lineno", "end_col_offset", "_qualname", "_inline_block", "_was_return", "_caller_stmt"):
             if hasattr(n, a):
                 setattr(new, a, getattr(n, a))
         return new
@@ -142,7 +142,20 @@ class _Unsupported(Exception):
 
 
 def _has_return(st: ast.AST) -> bool:
-    return any(isinstance(n, ast.Return) for n in walk_no_nested(st)) or isinstance(st, ast.Return)
+    """does the statement contain a `return` of the HELPER (statements of the caller that were placed inside it are opaque)"""
+    if getattr(st, "_caller_stmt", False):
+        return False
+    if isinstance(st, ast.Return):
+        return True
+    stack = list(ast.iter_child_nodes(st))
+    while stack:
+        n = stack.pop()
+        if getattr(n, "_caller_stmt", False) or isinstance(n, (ast.FunctionDef, ast.AsyncFunctionDef, ast.Lambda, ast.ClassDef)):
+            continue
+        if isinstance(n, ast.Return):
+            return True
+        stack.extend(ast.iter_child_nodes(n))
+    return False
 
 
 class _NeedBlock(Exception):
@@ -298,6 +311,44 @@ def _none_test(t: ast.AST, var: str) -> bool | None:
     return None
 
 
+def _const_test(t: ast.AST, var: str) -> tuple[str, bool] | None:
+    """`var is C` / `var == C` -> (text of C, True); `var is not C` / `var != C` -> (text of C, False), C a non-None literal or a
+    dotted constant such as an enum member; anything else -> None"""
+    neg = False
+    while isinstance(t, ast.UnaryOp) and isinstance(t.op, ast.Not):
+        t, neg = t.operand, not neg
+    if isinstance(t, ast.Compare) and len(t.ops) == 1 and isinstance(t.left, ast.Name) and t.left.id == var and isinstance(t.ops[0], (ast.Is, ast.IsNot, ast.Eq, ast.NotEq)):
+        c = t.comparators[0]
+        if (isinstance(c, ast.Constant) and c.value is not None) or _dotted_const(c):
+            return ast.unparse(c), isinstance(t.ops[0], (ast.Is, ast.Eq)) != neg
+    return None
+
+
+def _dotted_const(c: ast.AST) -> bool:
+    return isinstance(c, ast.Attribute) and isinstance(c.value, ast.Name) and c.attr.isupper()
+
+
+def _equals_const(v: ast.AST, const_text: str) -> bool | None:
+    """is the returned expression `v` certainly equal / certainly different from the constant? (None: cannot tell)"""
+    if isinstance(v, ast.IfExp):
+        a, b = _equals_const(v.body, const_text), _equals_const(v.orelse, const_text)
+        return a if a is not None and a == b else None
+    if isinstance(v, ast.Constant) or _dotted_const(v):
+        same = ast.unparse(v) == const_text
+        if same:
+            return True
+        # a different literal, or a different member of the same constant family
+        try:
+            ct = ast.parse(const_text, mode="eval").body
+        except SyntaxError:
+            return None
+        if isinstance(v, ast.Constant) and isinstance(ct, ast.Constant):
+            return False
+        if _dotted_const(v) and _dotted_const(ct) and ast.unparse(v.value) == ast.unparse(ct.value):  # type: ignore[attr-defined]
+            return False
+    return None
+
+
 def _never_none(fi: FuncInfo, hn: ast.AST, v: ast.AST, depth: int = 0) -> bool:
     """syntactically certain not to be None: a non-None literal, a display, an f-string, a call of a function of the same module
     whose return annotation excludes None, or a helper local bound once to such an expression"""
@@ -349,10 +400,19 @@ def _expand(fi: FuncInfo, caller_names: set[str], st: ast.stmt, select: Callable
         # a generator that is consumed at once (list(h(..)), x.extend(h(..)), sep.join(h(..)) - the caller marked the hoisted
         # temporary) is read as the list it yields: `yield e` -> acc.append(e), `yield from it` -> acc.extend(it), `return` -> done
         acc = targets[0].id
+        yhook = getattr(st, "_yield_body", None)  # (loop variable, condition on it, statements to run when it holds)
+        if yhook is not None and any(isinstance(n, ast.YieldFrom) for n in walk_no_nested(hn)):
+            return None
 
         class Y(ast.NodeTransformer):
             def visit_Expr(self, n: ast.Expr):  # noqa: N802
                 v = n.value
+                if isinstance(v, ast.Yield) and yhook is not None:
+                    var, cond, then = yhook
+                    a = ast.Assign(targets=[ast.Name(id=var, ctx=ast.Store())], value=v.value if v.value is not None else ast.Constant(value=None))
+                    i = ast.If(test=clone(cond), body=clone(list(then)), orelse=[])
+                    i._caller_stmt = True  # type: ignore[attr-defined]  # (its `return` is the caller's, not the helper's)
+                    return [ast.fix_missing_locations(ast.copy_location(a, n)), ast.fix_missing_locations(ast.copy_location(i, n))]
                 if isinstance(v, ast.Yield):
                     e = ast.Expr(value=ast.Call(func=ast.Attribute(value=ast.Name(id=acc, ctx=ast.Load()), attr="append", ctx=ast.Load()), args=[v.value if v.value is not None else ast.Constant(value=None)], keywords=[]))
                     return ast.fix_missing_locations(ast.copy_location(e, n))
@@ -362,11 +422,12 @@ def _expand(fi: FuncInfo, caller_names: set[str], st: ast.stmt, select: Callable
                 return n
 
         hn = Y().visit(hn)
-        init = ast.Assign(targets=[ast.Name(id=acc, ctx=ast.Store())], value=ast.List(elts=[], ctx=ast.Load()))
-        ast.fix_missing_locations(ast.copy_location(init, st))
-        body0 = [b for b in hn.body]
-        doc_first = body0 and isinstance(body0[0], ast.Expr) and isinstance(body0[0].value, ast.Constant) and isinstance(body0[0].value.value, str)
-        hn.body = (body0[:1] if doc_first else []) + [init] + (body0[1:] if doc_first else body0)
+        if yhook is None:
+            init = ast.Assign(targets=[ast.Name(id=acc, ctx=ast.Store())], value=ast.List(elts=[], ctx=ast.Load()))
+            ast.fix_missing_locations(ast.copy_location(init, st))
+            body0 = [b for b in hn.body]
+            doc_first = body0 and isinstance(body0[0], ast.Expr) and isinstance(body0[0].value, ast.Constant) and isinstance(body0[0].value.value, str)
+            hn.body = (body0[:1] if doc_first else []) + [init] + (body0[1:] if doc_first else body0)
         targets = []  # (the accumulator IS the target: former returns assign nothing)
         st = ast.copy_location(ast.Expr(value=call), st)
     is_method = h.cls is not None and not any(isinstance(d, ast.Name) and d.id == "staticmethod" for d in hn.decorator_list)
@@ -519,7 +580,14 @@ def _expand(fi: FuncInfo, caller_names: set[str], st: ast.stmt, select: Callable
             if thread[2] is not None:
                 # the tested name is one element of a tuple target: look at that element of the returned tuple
                 tval = val.elts[thread[2]] if isinstance(val, ast.Tuple) and len(val.elts) == thread[3] else ast.Name(id="?", ctx=ast.Load())
-            if isinstance(tval, ast.Constant) and tval.value is None:
+            if thread[4] is not None:
+                # test of the result against a constant (status value): decided where the returned expression is a constant
+                eq = _equals_const(tval, thread[4])
+                if eq is None:
+                    res.append(clone(follow_if))
+                else:
+                    res += clone(list(follow_if.body if eq == pol else follow_if.orelse))  # type: ignore[union-attr]
+            elif isinstance(tval, ast.Constant) and tval.value is None:
                 branch = follow_if.orelse if pol else follow_if.body  # type: ignore[union-attr]
                 res += clone(list(branch))
             elif _never_none(fi, hn, tval):
@@ -536,7 +604,11 @@ def _expand(fi: FuncInfo, caller_names: set[str], st: ast.stmt, select: Callable
             if isinstance(t, ast.Name):
                 pol = _none_test(follow_if.test, t.id)
                 if pol is not None:
-                    thread = (t.id, pol, pos, len(cands))
+                    thread = (t.id, pol, pos, len(cands), None)
+                else:
+                    ct = _const_test(follow_if.test, t.id)
+                    if ct is not None:
+                        thread = (t.id, ct[1], pos, len(cands), ct[0])
     renamed_body = [R().visit(b) for b in body]
     if isinstance(st, ast.Return):
         # `return h(...)`: the helper's returns simply become the caller's
@@ -770,6 +842,34 @@ def inline_helpers(fi: FuncInfo, select: Callable[[FuncInfo, ast.Call, ast.stmt]
                 if skip_next:
                     skip_next = False
                     continue
+                # `if [C and] any(<cond on x> for x in gen(..)): <leave>` over a generator helper: read as the helper's own loop with
+                # `x = <yielded>; if <cond>: <leave>` where it yields (any() stops at the first hit and the branch leaves anyway)
+                if isinstance(st, ast.If) and not st.orelse and _always_leaves(st.body):
+                    conj = st.test.values if isinstance(st.test, ast.BoolOp) and isinstance(st.test.op, ast.And) else [st.test]
+                    last = conj[-1]
+                    if isinstance(last, ast.Call) and isinstance(last.func, ast.Name) and last.func.id == "any" and len(last.args) == 1 and isinstance(last.args[0], ast.GeneratorExp) and len(last.args[0].generators) == 1:
+                        ge = last.args[0]
+                        g = ge.generators[0]
+                        gh = _helper_of(view, g.iter) if isinstance(g.iter, ast.Call) else None
+                        if gh is not None and isinstance(g.target, ast.Name) and not g.ifs and is_generator(gh.node) and inlinable(gh.node, allow_generator=True) and sel(gh, g.iter, st) and g.target.id not in names - {g.target.id}:
+                            tmp = f"_{gh.name.strip('_')}_scan"
+                            while tmp in names:
+                                tmp += "_"
+                            names.add(tmp)
+                            hst = ast.Assign(targets=[ast.Name(id=tmp, ctx=ast.Store())], value=g.iter)
+                            ast.fix_missing_locations(ast.copy_location(hst, st))
+                            hst._eager_ok = True  # type: ignore[attr-defined]
+                            hst._yield_body = (g.target.id, ge.elt, st.body)  # type: ignore[attr-defined]
+                            exp_a = _expand(view, names, hst, lambda h, c, s: sel(h, c, s))
+                            if exp_a is not None:
+                                inlined.append(gh.qualname)
+                                changed = True
+                                if len(conj) > 1:
+                                    outer = ast.If(test=conj[0] if len(conj) == 2 else ast.BoolOp(op=ast.And(), values=conj[:-1]), body=exp_a, orelse=[])
+                                    out.append(ast.fix_missing_locations(ast.copy_location(outer, st)))
+                                else:
+                                    out.extend(exp_a)
+                                continue
                 # expression-position helpers first: substitute one-expression helpers, hoist the others in front of the statement
                 if isinstance(st, (ast.Expr, ast.Assign, ast.AnnAssign, ast.AugAssign, ast.Return, ast.If, ast.While)):
                     ei = _ExprInliner(view, sel, names, inlined)
